@@ -461,6 +461,10 @@ func (a *adversary) injectWire(in Inject) {
 		return
 	}
 	m := &Msg{fromID: hotstuff.ID(in.From), to: target, kind: in.Kind, wire: buf, forged: true}
+	if a := mix(in.Gen, 0x616e6f6e) % 10; a < 2 {
+		m.anon = int(a) + 1 // a Byzantine peer also chooses what its connection says about who it is
+		w.fault("fuzz:unidentified-sender")
+	}
 	if !garbage || target.honest == false {
 		w.deliver(m, in.From)
 		return
